@@ -1,3 +1,4 @@
+import BoolFn.Proofs.Oracle
 import BoolFn.Proofs.Convert
 /-! # C01 — Conversions between the three representations preserve the function
 
